@@ -165,6 +165,7 @@ static void fill_operands(Rng &r, Op &o, unsigned bias, bool streams) {
         if (r.below(5) == 0) o.c = r.below(7);      // short pieces keep results around the limit
     }
     if (o.kind == SS_APPEND_CHAR) o.c = r.below(3) ? r.below(40) : draw_stream_len(r);
+    if ((o.kind == SS_APPEND_CHAR || o.kind == SS_SHL_CHAR) && r.below(5) == 0) o.b = 95 + r.below(161);      // a fifth: bytes >= 0x80, NUL
 }
 
 // which op kinds can carry a data-corruption fault (they take text / encoded input)
